@@ -252,7 +252,8 @@ def against_lean_spec(hists, impl_out, head):
     return compared, out
 
 
-DSPEC_OPS = {'append', 'appendleft', 'pop', 'popleft', 'peek', 'peekleft', 'len', 'clear', 'getitem', 'iter', 'riter'}
+DSPEC_OPS = {'append', 'appendleft', 'pop', 'popleft', 'peek', 'peekleft', 'len', 'clear', 'getitem', 'iter', 'riter',
+             'setitem', 'delitem', 'rotate', 'reverse', 'maxlen', 'extend', 'iadd', 'extendleft', 'count', 'remove', 'cmp'}
 
 
 def spec_history(rng, length):
